@@ -6,7 +6,7 @@
 (* its Handle Value Confirmation.  One action per public member function of              *)
 (* bluetoe::notification_queue; `r` / `res` is what the call returns.                    *)
 (*                                                                                       *)
-(* Priorities: Sizes = <<s1, .., sk>>; level 1 (indices 0..s1-1) is the highest.         *)
+(* Priorities: level sizes S1, S2, S3; level 1 (indices 0..S1-1) is the highest.         *)
 (* A request is *dequeuable* if it is pending and (indication =>) no confirmation is     *)
 (* awaited.  Dequeue returns SOME dequeuable request of the highest level that has one   *)
 (* (C12 priority order) that does not overtake another dequeuable request of its level   *)
@@ -20,36 +20,38 @@
 EXTENDS Integers, FiniteSets, Sequences
 
 CONSTANTS S1, S2, S3   \* sizes of the (up to three) priority levels, 0 = level absent (cfg friendly)
-Sizes == SelectSeq(<<S1, S2, S3>>, LAMBDA x : x > 0)     \* e.g. <<1, 2>>
+CONSTANT TrackLast      \* FALSE: `last` is frozen (smaller state space for the liveness runs)
+ASSUME /\ S1 \in Nat \ {0} /\ S2 \in Nat /\ S3 \in Nat /\ (S3 > 0 => S2 > 0)
 
-None == -1
-NLevels == Len(Sizes)
-RECURSIVE SumTo(_)
-SumTo(k) == IF k = 0 THEN 0 ELSE SumTo(k - 1) + Sizes[k]
-N     == SumTo(NLevels)
+None  == -1
+N     == S1 + S2 + S3
 Idx   == 0 .. N - 1
 Kinds == {"n", "i"}
 Req   == Idx \X Kinds
-Level(i) == CHOOSE L \in 1 .. NLevels : SumTo(L - 1) <= i /\ i < SumTo(L)
-LevelTab == [i \in Idx |-> Level(i)]          \* constant, evaluated once
+\* level 1 = indices 0..S1-1 is the highest priority
+LevelTab == [i \in Idx |-> IF i < S1 THEN 1 ELSE IF i < S1 + S2 THEN 2 ELSE 3]
 LevelOf(e) == LevelTab[e[1]]
 
 VARIABLES pending,      \* set of requests
           outstanding,  \* index of the unconfirmed indication or None
           over,         \* fairness ghost, set of <<victim, overtaker>>
+          passed,       \* diagnostic ghost: pending indications that were blocked (confirmation awaited)
+                        \* while another request of their level was handed out; only used to NAME findings
           last          \* the last call and its result (history of length 1, to state the properties)
 
-vars == <<pending, outstanding, over, last>>
+vars == <<pending, outstanding, over, passed, last>>
 
-Call(op, i, k, r) == [op |-> op, i |-> i, k |-> k, r |-> r]
+Call(op, i, k, r) == IF TrackLast THEN [op |-> op, i |-> i, k |-> k, r |-> r]
+                                  ELSE [op |-> "init", i |-> 0, k |-> "-", r |-> FALSE]
 Empty == [k |-> "e", i |-> 0]
 
 TypeOK == /\ pending \subseteq Req
           /\ outstanding \in Idx \cup {None}
           /\ over \subseteq Req \X Req
+          /\ passed \subseteq Req
           /\ last \in [op : {"init", "qn", "qi", "dq", "cf", "cl"}, i : Idx \cup {0}, k : {"n", "i", "e", "-"}, r : BOOLEAN]
 
-Init == /\ pending = {} /\ outstanding = None /\ over = {}
+Init == /\ pending = {} /\ outstanding = None /\ over = {} /\ passed = {}
         /\ last = Call("init", 0, "-", FALSE)
 
 Dequeuable(e) == e \in pending /\ (e[2] = "i" => outstanding = None)
@@ -62,32 +64,35 @@ Candidates    == {e \in Top(DQ) : Fair(e)}
 Queue(i, k, r) ==
     /\ r = (<<i, k>> \notin pending)                      \* C12: newly queued exactly if not pending
     /\ pending' = pending \cup {<<i, k>>}
-    /\ UNCHANGED <<outstanding, over>>
+    /\ UNCHANGED <<outstanding, over, passed>>
     /\ last' = Call(IF k = "n" THEN "qn" ELSE "qi", i, k, r)
 
 QueueN(i, r) == Queue(i, "n", r)
 QueueI(i, r) == Queue(i, "i", r)
 
 \* effect of handing out request e (no guard on priority / fairness here)
+OverAfter(e)   == {p \in over : p[1] # e} \cup {<<f, e>> : f \in Rivals(e)}
+PassedAfter(e) == (passed \cup {f \in pending \ DQ : LevelOf(f) = LevelOf(e)}) \ {e}
 Take(e) ==
     /\ pending' = pending \ {e}
     /\ outstanding' = IF e[2] = "i" THEN e[1] ELSE outstanding
-    /\ over' = {p \in over : p[1] # e} \cup {<<f, e>> : f \in Rivals(e)}
+    /\ over' = OverAfter(e)
+    /\ passed' = PassedAfter(e)
     /\ last' = Call("dq", e[1], e[2], TRUE)
 
 Dequeue(res) ==
     \/ /\ DQ = {} /\ res = Empty
-       /\ UNCHANGED <<pending, outstanding, over>>
+       /\ UNCHANGED <<pending, outstanding, over, passed>>
        /\ last' = Call("dq", 0, "e", FALSE)
     \/ \E e \in Candidates : res = [k |-> e[2], i |-> e[1]] /\ Take(e)
 
 Confirm ==
     /\ outstanding' = None
-    /\ UNCHANGED <<pending, over>>
+    /\ UNCHANGED <<pending, over, passed>>
     /\ last' = Call("cf", 0, "-", FALSE)
 
 Clear ==
-    /\ pending' = {} /\ outstanding' = None /\ over' = {}
+    /\ pending' = {} /\ outstanding' = None /\ over' = {} /\ passed' = {}
     /\ last' = Call("cl", 0, "-", FALSE)
 
 Results == {Empty} \cup {[k |-> e[2], i |-> e[1]] : e \in Req}
@@ -102,7 +107,8 @@ Spec == Init /\ [][Next]_vars
 -------------------------------------------------------------------------------
 (* The listed properties, stated on observable calls (`last`) and the pending set.      *)
 
-GhostOK == \A p \in over : p[1] \in pending /\ p[1] # p[2] /\ LevelOf(p[1]) = LevelOf(p[2])
+GhostOK == /\ \A p \in over : p[1] \in pending /\ p[1] # p[2] /\ LevelOf(p[1]) = LevelOf(p[2])
+           /\ \A f \in passed : f \in pending /\ f[2] = "i"
 
 \* the specification is implementable: whenever something is dequeuable, some choice is allowed
 DequeuePossible == DQ # {} => Candidates # {}
@@ -133,6 +139,36 @@ AtMostOneOutstanding ==
 \* notifications are never blocked by an outstanding indication
 NotificationsContinue == (outstanding # None /\ \E e \in pending : e[2] = "n")
                             => (Candidates # {} /\ \A e \in Candidates : e[2] = "n")
+
+-------------------------------------------------------------------------------
+(* Classification of a call the specification does NOT allow (used by the trace spec and *)
+(* by the implementation-model monitor to name a finding; "ok" = the call is a step).    *)
+(* The result is a tuple of strings / booleans; the check turns it into the signature.   *)
+B(b) == IF b THEN "1" ELSE "0"
+IsSingle(i) == Cardinality({j \in Idx : LevelTab[j] = LevelTab[i]}) = 1
+Other(k) == IF k = "n" THEN "i" ELSE "n"
+
+WhyQueue(i, k, r) ==
+    IF r = (<<i, k>> \notin pending) THEN <<"ok">>
+    ELSE <<"queue", k, "r=" \o B(r), "pending=" \o B(<<i, k>> \in pending),
+           "other_kind_pending=" \o B(<<i, Other(k)>> \in pending), "single_entry_level=" \o B(IsSingle(i))>>
+
+\* classes of the victims of an unfair choice e:  <<kind of the victim,
+\*    "the other kind of the victim's own characteristic was handed out while the victim could have been",
+\*    "the victim is an indication that was passed while it was blocked by an awaited confirmation">>
+UnfairClasses(e) == {<<f[2], B(<<f, <<f[1], Other(f[2])>>>> \in over), B(f \in passed)>> :
+                        f \in {g \in Rivals(e) : <<g, e>> \in over}}
+
+WhyDequeue(res) ==
+    IF res = Empty
+    THEN IF DQ = {} THEN <<"ok">>
+         ELSE <<"dequeue", "empty_but_dequeuable", {e[2] : e \in DQ}, "awaiting_confirmation=" \o B(outstanding # None)>>
+    ELSE LET e == <<res.i, res.k>> IN
+         IF e \notin pending THEN <<"dequeue", "not_pending", res.k>>
+         ELSE IF e[2] = "i" /\ outstanding # None THEN <<"dequeue", "indication_while_awaiting_confirmation">>
+         ELSE IF e \notin Top(DQ) THEN <<"dequeue", "priority_inversion", res.k>>
+         ELSE IF ~Fair(e) THEN <<"dequeue", "overtaken_twice", UnfairClasses(e)>>
+         ELSE <<"ok">>
 
 -------------------------------------------------------------------------------
 (* Liveness (C11: an accepted indication is eventually handed out if confirmations keep  *)
